@@ -216,3 +216,170 @@ Proof.
     apply vtrunc_small; [lia|]. pose proof (pow2_pos (snd r) ltac:(lia)). destruct Hv as [-> | ->]; lia.
 Qed.
 End Repeat.
+
+(* ---------------- n-ary bitwise chains  a0 & a1 & ... & an   (InlineAnd / InlineOr / InlineNor, and the 2-input
+   Nand2 / Nor2 / Xor2 / Xor blocks that the simulator builds structurally): the assign computes the bitwise fold.
+   The simulator side of these STRUCTURAL blocks is C08's theorems (model = the same fold). *)
+Section Nary.
+Variable env : list Z.
+Notation val n := (getv env (fst n)).
+
+Definition bitop (o : binop) : bool := match o with BAnd | BOr | BXor => true | _ => false end.
+
+Lemma bop_closed o W x y : bitop o = true -> 0 <= W -> 0 <= x < 2 ^ W -> 0 <= y < 2 ^ W -> 0 <= bop o x y < 2 ^ W.
+Proof.
+  intros Ho HW Hx Hy.
+  assert (Hb : forall z, 0 <= z -> (forall k, W <= k -> Z.testbit z k = false) -> 0 <= z < 2 ^ W).
+  { intros z Hz Hk. split; [lia|]. destruct (Z.eq_dec z 0) as [->|Hn]; [apply pow2_pos; lia|].
+    apply Z.log2_lt_pow2; [lia|]. destruct (Z.lt_ge_cases (Z.log2 z) W) as [|Hge]; [lia|].
+    specialize (Hk _ Hge). rewrite Z.bit_log2 in Hk by lia. discriminate. }
+  assert (Hhi : forall z k, 0 <= z < 2 ^ W -> W <= k -> Z.testbit z k = false).
+  { intros z k Hz Hk. rewrite <- (Z.mod_small z (2 ^ W)) by lia. apply Z.mod_pow2_bits_high; lia. }
+  destruct o; try discriminate; cbn [bop]; apply Hb.
+  - apply Z.land_nonneg; lia.
+  - intros k Hk. rewrite Z.land_spec, (Hhi x), (Hhi y) by lia. reflexivity.
+  - apply Z.lor_nonneg; lia.
+  - intros k Hk. rewrite Z.lor_spec, (Hhi x), (Hhi y) by lia. reflexivity.
+  - apply Z.lxor_nonneg; lia.
+  - intros k Hk. rewrite Z.lxor_spec, (Hhi x), (Hhi y) by lia. reflexivity.
+Qed.
+
+(* an unsigned expression of size <= W whose value does not depend on how wide (>= W) the context is *)
+Definition good (e : rexpr) (v W : Z) : Prop :=
+  rsigned e = false /\ rsize e <= W /\ 0 <= v < 2 ^ W /\ forall w, W <= w -> reval env w false e = v.
+
+Lemma good_rid n W : okn env n -> snd n <= W -> good (rid n) (val n) W.
+Proof.
+  intros [Hw Hv] Hle. split; [|split; [|split]]; cbn [rid rsigned rsize]; try lia; try reflexivity.
+  - eapply small_in_wider; [|exact Hv]; lia.
+  - intros w Hw'. apply reval_rid; [split; assumption | lia].
+Qed.
+
+Lemma good_chain o W : bitop o = true -> 0 <= W -> forall l e v, good e v W -> Forall (fun n => okn env n /\ snd n <= W) l ->
+  good (chain o e (map rid l)) (fold_left (fun acc n => bop o acc (val n)) l v) W.
+Proof.
+  intros Ho HW l. induction l as [|n t IH]; intros e v Hg Hall; cbn [map chain fold_left]; [exact Hg|].
+  inversion Hall as [|? ? [Hn Hle] Ht]; subst. apply IH; [|exact Ht].
+  destruct Hg as (Hsg & Hsz & Hv & Hev). pose proof (good_rid n W Hn Hle) as (Hsg' & Hsz' & Hv' & Hev').
+  assert (Ha : arith_op o = true) by (destruct o; try discriminate; reflexivity).
+  split; [|split; [|split]].
+  - cbn [rsigned]. rewrite Ha, Hsg. reflexivity.
+  - cbn [rsize]. rewrite Ha. lia.
+  - apply bop_closed; auto; lia.
+  - intros w Hw. cbn [reval]. rewrite Ha. rewrite Hev, Hev' by lia.
+    destruct o; try discriminate; apply vtrunc_small; try lia;
+      (eapply small_in_wider; [|apply (bop_closed _ W); [reflexivity | lia | exact Hv | exact Hv']]; lia).
+Qed.
+
+Definition maxw (l : list nid) : Z := fold_right (fun n m => Z.max (snd n) m) 0 l.
+Lemma maxw_all l : Forall (okn env) l -> Forall (fun n => okn env n /\ snd n <= maxw l) l.
+Proof.
+  induction 1 as [|n t Hn Ht IH]; constructor; cbn [maxw fold_right].
+  - split; [exact Hn | lia].
+  - eapply Forall_impl; [|exact IH]. cbn. intros a [Ha Hle]. split; [exact Ha|]. fold (maxw t). lia.
+Qed.
+
+Lemma rsize_chain o : arith_op o = true -> forall l e, 0 <= rsize e -> rsize (chain o e (map rid l)) = Z.max (rsize e) (maxw l).
+Proof.
+  intros Ha l. induction l as [|n l IH]; intros e He; cbn [map chain maxw fold_right].
+  - lia.
+  - rewrite IH by (cbn [rsize]; rewrite Ha; lia). cbn [rsize]. rewrite Ha. cbn [rid rsize]. fold (maxw l). lia.
+Qed.
+
+(* assign r = a0 o a1 o ... o an;       o in {&, |, ^} *)
+Theorem inl_nary_sound o r x t : bitop o = true -> okn env x -> Forall (okn env) t -> 0 < snd r ->
+  forall l e, inl_nary o r (x :: t) = [(l, e)] ->
+  assign_value env l e = trunc (snd r) (fold_left (fun acc n => bop o acc (val n)) t (val x)).
+Proof.
+  intros Ho Hx Ht Hr l e H; inversion H; subst; clear H.
+  set (W := maxw (x :: t)). assert (HW : 0 <= W) by (unfold W; cbn [maxw fold_right]; destruct Hx; lia).
+  pose proof (maxw_all (x :: t) (Forall_cons _ Hx Ht)) as Hall. fold W in Hall. inversion Hall as [|? ? [_ Hxle] Htle]; subst.
+  pose proof (good_chain o W Ho HW t (rid x) (val x) (good_rid x W Hx Hxle) Htle) as (Hsg & Hsz & Hv & Hev).
+  unfold assign_value. cbn [lwidth whole]. rewrite Hsg.
+  set (ee := chain o (rid x) (map rid t)) in *.
+  destruct (Z.le_ge_cases W (Z.max (snd r) (rsize ee))) as [Hle | Hge].
+  - rewrite Hev by exact Hle. apply vtrunc_trunc; lia.
+  - (* context narrower than W cannot happen unless all operands are narrower: then re-run with that bound *)
+    assert (Hrs : rsize ee = W).
+    { unfold ee, W. rewrite rsize_chain by (try (destruct o; try discriminate; reflexivity); cbn [rid rsize]; destruct Hx; lia).
+      cbn [rid rsize maxw fold_right]. fold (maxw t). reflexivity. }
+    rewrite Hev by lia. apply vtrunc_trunc; lia.
+Qed.
+
+(* assign r = ~(a0 | a1 | ... );   and the 2-input  ~(a & b) / ~(a | b) *)
+Theorem inl_nnary_sound o r x t : bitop o = true -> okn env x -> Forall (okn env) t -> 0 < snd r ->
+  forall l e, inl_nnary o r (x :: t) = [(l, e)] ->
+  assign_value env l e = trunc (snd r) (Z.lnot (fold_left (fun acc n => bop o acc (val n)) t (val x))).
+Proof.
+  intros Ho Hx Ht Hr l e H; inversion H; subst; clear H.
+  set (W := maxw (x :: t)). assert (HW : 0 <= W) by (unfold W; cbn [maxw fold_right]; destruct Hx; lia).
+  pose proof (maxw_all (x :: t) (Forall_cons _ Hx Ht)) as Hall. fold W in Hall. inversion Hall as [|? ? [_ Hxle] Htle]; subst.
+  pose proof (good_chain o W Ho HW t (rid x) (val x) (good_rid x W Hx Hxle) Htle) as (Hsg & Hsz & Hv & Hev).
+  unfold assign_value. cbn [lwidth whole rsigned rsize]. rewrite Hsg.
+  set (ee := chain o (rid x) (map rid t)) in *.
+  assert (Hrs : rsize ee = W).
+  { unfold ee, W. rewrite rsize_chain by (try (destruct o; try discriminate; reflexivity); cbn [rid rsize]; destruct Hx; lia).
+    cbn [rid rsize maxw fold_right]. fold (maxw t). reflexivity. }
+  cbn [reval]. rewrite Hev by lia. rewrite vtrunc_vtrunc_le by lia. apply vtrunc_trunc; lia.
+Qed.
+End Nary.
+
+(* ---------------- equality comparators:  assign r = (a == b)? 1 : 0;    assign r = (a == K)? 1 : 0; *)
+Section Eq.
+Variable env : list Z.
+Notation val n := (getv env (fst n)).
+
+Lemma cond10 w (c : bool) : 0 < w -> vtrunc w (if c then extend true 32 (Z.max w 32) (vtrunc 32 1) else extend true 32 (Z.max w 32) (vtrunc 32 0)) = b2z c.
+Proof.
+  intros Hw. set (W := Z.max w 32). assert (HW : 32 <= W) by lia.
+  assert (H1 : extend true 32 W (vtrunc 32 1) = 1).
+  { unfold extend, to_signed, vtrunc. change (1 mod 2 ^ 32) with 1. change (2 ^ (32 - 1) <=? 1) with false. cbn [negb].
+    apply Z.mod_small. split; [lia|]. apply Z.lt_le_trans with (2 ^ 32); [reflexivity | apply pow2_le; lia]. }
+  assert (H0 : extend true 32 W (vtrunc 32 0) = 0).
+  { unfold extend, to_signed, vtrunc. change (0 mod 2 ^ 32) with 0. change (2 ^ (32 - 1) <=? 0) with false.
+    apply Z.mod_small. split; [lia|]. apply pow2_pos; lia. }
+  assert (P1 : 0 <= 1 < 2 ^ w) by (split; [lia|]; apply Z.lt_le_trans with (2 ^ 1); [reflexivity | apply pow2_le; lia]).
+  assert (P0 : 0 <= 0 < 2 ^ w) by (split; [lia|]; apply pow2_pos; lia).
+  destruct c; rewrite ?H1, ?H0; cbn [b2z]; apply vtrunc_small; lia.
+Qed.
+
+Lemma ext_val n w : okn env n -> snd n <= w -> vtrunc w (val n) = val n.
+Proof. intros [Hw Hv] Hle. apply vtrunc_small; [lia|]. eapply small_in_wider; [|exact Hv]; lia. Qed.
+
+Theorem inl_equal_sound r a b : okn env a -> okn env b -> 0 < snd r ->
+  forall l e, inl_equal r a b = [(l, e)] -> assign_value env l e = b2z (val a =? val b).
+Proof.
+  intros Ha Hb Hr l e H; inversion H; subst; clear H.
+  unfold assign_value. cbn [lwidth whole rsize rsigned arith_op shift_op andb].
+  replace (Z.max (snd r) (Z.max 32 32)) with (Z.max (snd r) 32) by lia.
+  cbn [reval rsize rsigned arith_op shift_op andb rid extend].
+  set (cw := Z.max (snd a) (snd b)).
+  rewrite !ext_val by (auto; lia).
+  assert (Hc : vtrunc 1 (b2z (val a =? val b)) = b2z (val a =? val b)) by (apply vtrunc_small; [lia | destruct (val a =? val b); cbn; lia]).
+  rewrite Hc.
+  replace (b2z (val a =? val b) =? 0) with (negb (val a =? val b)) by (destruct (val a =? val b); reflexivity).
+  pose proof (cond10 (snd r) (val a =? val b) Hr) as Hk.
+  destruct (val a =? val b); cbn [negb] in *; exact Hk.
+Qed.
+
+Theorem inl_equalconst_sound r a v : okn env a -> 0 < snd r -> 0 <= v < 2 ^ 31 ->
+  forall l e, inl_equalconst r a v = [(l, e)] -> assign_value env l e = b2z (val a =? v).
+Proof.
+  intros Ha Hr Hv l e H; inversion H; subst; clear H.
+  unfold pynum. destruct (Z.ltb_spec v 0); [lia|].
+  unfold assign_value. cbn [lwidth whole rsize rsigned arith_op shift_op andb].
+  replace (Z.max (snd r) (Z.max 32 32)) with (Z.max (snd r) 32) by lia.
+  cbn [reval rsize rsigned arith_op shift_op andb rid extend].
+  set (cw := Z.max (snd a) 32).
+  rewrite ext_val by (auto; lia).
+  assert (Hlit : vtrunc cw (vtrunc 32 v) = v).
+  { unfold vtrunc. rewrite (Z.mod_small v (2 ^ 32)) by lia. apply Z.mod_small. split; [lia|].
+    apply Z.lt_le_trans with (2 ^ 32); [lia | apply pow2_le; lia]. }
+  rewrite Hlit.
+  assert (Hc : vtrunc 1 (b2z (val a =? v)) = b2z (val a =? v)) by (apply vtrunc_small; [lia | destruct (val a =? v); cbn; lia]).
+  rewrite Hc.
+  replace (b2z (val a =? v) =? 0) with (negb (val a =? v)) by (destruct (val a =? v); reflexivity).
+  pose proof (cond10 (snd r) (val a =? v) Hr) as Hk.
+  destruct (val a =? v); cbn [negb] in *; exact Hk.
+Qed.
+End Eq.
